@@ -11,6 +11,7 @@ import FontVerif.Model.HintMove
 import FontVerif.Model.FtMove
 import FontVerif.Drv.C03Prog
 import FontVerif.Drv.C03Load
+import FontVerif.Drv.C03Control
 namespace FontVerif.Drv.C03
 open FontVerif
 
@@ -68,6 +69,9 @@ def handle (cmd : String) (args : List String) : Option String :=
   | none => none
   | some xs =>
     match C03Prog.handle cmd xs with
+    | some r => some r
+    | none =>
+    match C03Control.handle cmd xs with
     | some r => some r
     | none =>
     match (if cmd = "sk.load" ∨ cmd = "ft.load" then C03Load.handle cmd xs else none) with
